@@ -343,18 +343,19 @@ func (t *srcTree) complete(fs filesystem.Filespace, prefix string) string {
 }
 
 type copyCase struct {
-	Helper string `json:"helper"` // "Copy" | "Copier-dir" | "Copier-file" | "StreamCopy"
-	Src    string `json:"src"`
-	Dst    string `json:"dst"`
-	Side   string `json:"fault_side"`  // "" | "src" | "dst"
-	Layer  string `json:"fault_layer"` // "outer" | "under"
-	Short  bool   `json:"short_write"`
-	Wide   bool   `json:"wide"`
+	Helper   string `json:"helper"` // "Copy" | "Copier-dir" | "Copier-file" | "StreamCopy"
+	Src      string `json:"src"`
+	Dst      string `json:"dst"`
+	Side     string `json:"fault_side"`  // "" | "src" | "dst"
+	Layer    string `json:"fault_layer"` // "outer" | "under"
+	Short    bool   `json:"short_write"`
+	Buffered bool   `json:"flush_on_close"` // the decorated side's writers hand their data over only in Close
+	Wide     bool   `json:"wide"`
 }
 
 // doCopy runs the helper once with the given fault position; returns helper error, completeness, fired point, number of points.
 func doCopy(rng *rand.Rand, cc copyCase, t *srcTree, failAt int64, tmp string) (herr error, incomplete string, fired string, points int64, setupErr error) {
-	faults := &mfs.Faults{Short: cc.Short}
+	faults := &mfs.Faults{Short: cc.Short, Buffered: cc.Buffered}
 	deco := func(name string) func(filesystem.Filespace) filesystem.Filespace {
 		return func(in filesystem.Filespace) filesystem.Filespace { return mfs.NewFaultFS(in, faults, name) }
 	}
@@ -444,6 +445,7 @@ func runCopy(c *sup.Child, b sup.Batch) {
 			cc.Side = []string{"src", "dst"}[idx%2]
 			cc.Layer = []string{"outer", "under"}[(idx/2)%2]
 			cc.Short = cc.Side == "dst" && idx%7 == 3
+			cc.Buffered = cc.Side == "dst" && idx%3 == 1 && !cc.Short
 			if cc.Layer == "under" {
 				// faults below a layer only make sense where there is a layer
 				k := cc.Src
